@@ -18,7 +18,7 @@ func init() {
 			"(2) no decoder narrows an integer to a smaller type without a range check on the path (e.g. byte(t) for a parsed int: \"256\" would decode as 0); (3) codec pairs: each encoder/decoder pair uses matching standard-library primitives with matching constants — FormatInt(.,10)<->Atoi/ParseInt(.,10,64), FormatUint(.,10)<->ParseUint(.,10,64), bases 16 and 32 for the hex helpers, Unix()<->time.Unix(t,0), UnixNano()<->time.Unix(0,t), Duration.String<->ParseDuration, base64.RawStdEncoding both ways, Itoa+\"/\"<->Split(\"/\")+Atoi — and MarshalJSON wraps the codec output in exactly one quote at each end; (4) decode errors of the primitive are returned, never swallowed. " +
 			"NOT decided: exactness of strconv/time themselves; Atoi into int64 on 32-bit platforms (observation in the thorough tier).",
 		Assumptions: []string{"strconv, time, encoding/base64 round-trip their own formats"},
-		Floors:      map[string]int{"C20.quote-guard": 7, "C20.narrowing": 1, "C20.codec-pair": 12, "C20.quote-wrap": 6, "C20.error-returned": 7, "C20.dest-assigned": 8},
+		Floors:      map[string]int{"C20.quote-guard": 7, "C20.narrowing": 1, "C20.codec-pair": 12, "C20.quote-wrap": 6, "C20.error-returned": 7, "C20.dest-assigned": 8, "C20.output-owned": 8},
 		Run:         runC20,
 	})
 }
@@ -102,13 +102,21 @@ func runC20(c *Ctx) {
 		}
 		return false
 	}
+	// public helpers that hand out an encoding as a byte slice
+	for _, h := range []string{"JsByte.ToJS"} {
+		if fn := c.mustFn(rel, h); fn != nil {
+			_, ts := callsOf(fn)
+			c.checkOutputOwned(fn, h, ts)
+		}
+	}
 	for _, p := range pairs {
 		enc, dec := c.mustFn(rel, p.enc), c.mustFn(rel, p.dec)
 		if enc == nil || dec == nil {
 			continue
 		}
-		es, _ := callsOf(enc)
+		es, etraces := callsOf(enc)
 		ds, _ := callsOf(dec)
+		c.checkOutputOwned(enc, p.name, etraces)
 		var missing []string
 		for _, w := range p.encCalls {
 			if !has(es, w) {
@@ -385,6 +393,76 @@ func (c *Ctx) checkDestAssigned(fn *ssa.Function, cons string, cfg TraceConfig) 
 	}
 	if ok && n > 0 {
 		c.holds("C20.dest-assigned", cons, fn.Pos(), fmt.Sprintf("%d success paths assign the destination", n))
+	}
+}
+
+// checkOutputOwned: a byte slice returned by an encoder is the caller's alone. If it is a view into a buffer
+// (bytes.Buffer.Bytes / Next), that buffer must not come from shared state (a call on a package-level variable,
+// e.g. a sync.Pool) nor be handed to anything else on the path (e.g. Pool.Put, also when deferred): otherwise
+// another call's encoding overwrites this one's output and decoding it yields a different value.
+func (c *Ctx) checkOutputOwned(enc *ssa.Function, name string, traces []*Trace) {
+	cons := name + " encoder"
+	n, ok := 0, true
+	resOf := func(t *Trace, v *Sym) *Event {
+		for _, e := range t.Events {
+			if e.Kind == EvCall && e.Res != nil && e.Res.Key() == v.Key() {
+				return e
+			}
+		}
+		return nil
+	}
+	for _, t := range traces {
+		if t.End != EndReturn || len(t.Ret) == 0 {
+			continue
+		}
+		r := t.Ret[0].strip()
+		if r.Typ == nil {
+			continue
+		}
+		if _, isSlice := r.Typ.Underlying().(*types.Slice); !isSlice {
+			continue
+		}
+		n++
+		src := resOf(t, r)
+		if src == nil || len(src.Args) == 0 {
+			continue
+		}
+		if cn := src.callName(); cn != "(*bytes.Buffer).Bytes" && cn != "(*bytes.Buffer).Next" {
+			continue
+		}
+		buf := src.Args[0]
+		why := ""
+		// origin of the buffer
+		buf.walk(func(x *Sym) {
+			if x.Kind == KGlobal {
+				why = "the buffer is package-level state (" + c.short(x.Key()) + ")"
+			}
+			if o := resOf(t, x); o != nil {
+				for _, a := range o.Args {
+					if rt := a.root(); rt != nil && rt.Kind == KGlobal {
+						why = "the buffer comes from " + o.callName() + " on the package-level variable " + c.short(rt.Key())
+					}
+				}
+			}
+		})
+		// handed to somebody else
+		for _, e := range t.Events {
+			if e.Kind != EvCall || e == src || strings.HasPrefix(e.callName(), "(*bytes.Buffer).") {
+				continue
+			}
+			for _, a := range e.Args {
+				if a.strip().Key() == buf.strip().Key() && why == "" {
+					why = "the buffer is also handed to " + e.callName()
+				}
+			}
+		}
+		if why != "" && ok {
+			ok = false
+			c.violated("C20.output-owned", cons, src.Pos, "the encoder returns a view into a buffer it does not own exclusively ("+why+"): a later or concurrent encode reuses the buffer and rewrites this output, so decoding it gives another value's bytes", c.witness(t, len(t.Events)-1)...)
+		}
+	}
+	if ok && n > 0 {
+		c.holds("C20.output-owned", cons, enc.Pos(), fmt.Sprintf("%d paths returning a byte slice", n))
 	}
 }
 
